@@ -8,7 +8,7 @@
 rc_target("c16_math", flavour="asan", cxxflags=["-fsanitize=integer-divide-by-zero"], gcc_harness_objects=["harness/c16_asm_consts.c"],
           env={"ASAN_OPTIONS": "detect_leaks=0:abort_on_error=1:allocator_may_return_null=1:detect_stack_use_after_return=0:"
                                "handle_abort=0:malloc_context_size=0:quarantine_size_mb=16"})
-plan("C16", [T("c16_math", 20000, 200000)], min_nt=14000,
+plan("C16", [T("c16_math", 20000, 200000), TT(GCC("c16_math"), 20000)], min_nt=14000,
      rule="operand pairs / conversions on three implementation variants side by side against unsigned __int128; "
           "non-trivial = a generated pair whose exact sum or product is within 2 of the type's MAX on either side, or a "
           "generated conversion whose whole part saturates",
